@@ -15,6 +15,9 @@ Streams
           saved one (also the empty set); crash injection on the transition to the empty set.
   cachehist histories of update_map / delete_map / restart over two pairing ids through CharacteristicCacheFile and
           through AbstractPairing.restore_accessories_state; after every restart each id holds what was written last.
+  blewt   the BLE pairing methods that decide whether/what to write through (_async_set_broadcast_encryption_key,
+          _update_state_num, _async_description_update, restore_accessories_state) on a live BlePairing; after every
+          step a restart must see the config number, state number and broadcast key just established.
   jcodec  the concrete JSON codec (Model/PersistJson.v): real files = jprint of their lexical tree, jparse = tree,
           every / every structural strict prefix is rejected by the model AND by the real load_data, corruptions.
   emap    entity maps (random well-formed + tests/fixtures) through Accessories.from_list /
@@ -1640,6 +1643,168 @@ def unhx_safe(s):
         return b""
 
 
+# ---------------------------------------------------------------- stream: BLE write-through decisions on a live BlePairing
+BLE_DB = [{"aid": 1, "services": [
+    {"iid": 1, "type": "3E", "characteristics": [
+        {"type": "23", "iid": 2, "perms": ["pr"], "format": "string", "value": "Sensor ☀"},
+        {"type": "14", "iid": 3, "perms": ["pw"], "format": "bool"}]},
+    {"iid": 10, "type": "A2", "characteristics": [
+        {"type": "37", "iid": 11, "perms": ["pr"], "format": "string", "value": "2.2.0"},
+        {"type": "A5", "iid": 12, "perms": ["pr"], "format": "data", "value": ""}]},
+    {"iid": 20, "type": "8A", "linked": [10], "characteristics": [
+        {"type": "11", "iid": 21, "perms": ["pr", "ev"], "format": "float", "value": 21.5, "minValue": 0, "maxValue": 100,
+         "minStep": 0.1, "broadcast_events": True, "disconnected_events": True}]}]}]
+
+
+async def stream_blewt(ctx, drv, cov, viols, root, r):
+    """The methods of BlePairing / AbstractPairing that DECIDE whether and what to write through to the cache, driven
+    for real on one live BlePairing over a CharacteristicCacheFile: _async_set_broadcast_encryption_key (GATT request
+    mocked, key derivation scripted) with an unchanged config number, restore_accessories_state with a changed config
+    number, _update_state_num (connection / notification path) and _async_description_update (advertisement path) with
+    the state number going up, down, to 65534, to 1 (roll-over) or staying.  After EVERY step a fresh
+    CharacteristicCacheFile + fresh controller + freshly loaded pairing (what a restart at that moment would see) must
+    hold the config number, state number and broadcast key the operations established."""
+    import itertools
+    import pathlib
+    from unittest.mock import AsyncMock
+
+    from aiohomekit.characteristic_cache import CharacteristicCacheFile
+    from aiohomekit.controller.ble.manufacturer_data import HomeKitAdvertisement
+    tier = ctx["tier"]
+    path = os.path.join(root, "charmap.json")
+    K = {"k1": bytes(range(32)), "k2": bytes(range(64, 96)), "k3": bytes(range(200, 232))}
+    hkid = "aa:bb:cc:dd:ee:09"
+    pd = gen_pairing(r, "BLE")
+    pd["AccessoryPairingID"] = hkid
+    ALPHA = ["key1", "key2", "cfgkey", "up_poll", "up_adv", "down_poll", "down_adv", "same_adv", "hi_poll", "one_poll",
+             "one_adv", "restart"]
+    hists = []
+    for n in (1, 2):
+        hists += [("exhaustive", list(h)) for h in itertools.product(ALPHA, repeat=n)]
+    if tier != "quick":
+        hists += [("exhaustive", list(h)) for h in itertools.product(ALPHA, repeat=3)]
+    # directed: key set-up / regeneration while the config number is unchanged; counter going down / rolling over
+    for pre in ([], ["up_poll"], ["cfgkey"], ["restart"], ["key1"], ["key1", "restart"]):
+        for k in ("key1", "key2"):
+            hists.append(("key-same-config", pre + [k, "restart"]))
+            hists.append(("key-same-config", pre + [k, "restart", "up_adv"]))
+    for pre in ([], ["key1"], ["restart"]):
+        hists.append(("roll-over", pre + ["hi_poll", "key2", "one_poll", "restart"]))       # what the notification path does
+        hists.append(("roll-over", pre + ["hi_poll", "one_adv", "restart", "up_poll"]))
+        hists.append(("counter-down", pre + ["up_poll", "up_poll", "down_adv", "restart"]))
+        hists.append(("counter-down", pre + ["up_adv", "down_poll", "restart", "up_poll", "restart"]))
+    for _ in range(120 if tier == "quick" else 2500):
+        hists.append(("random", [r.choice(ALPHA) for _ in range(r.randrange(3, 10))]))
+    stats = dict(histories=0, steps=0, observations=0, key_set_same_config=0, key_set_changed_config=0, state_up=0,
+                 state_down=0, state_same=0, state_rollover=0, restarts=0, initial_with_key=0,
+                 exhaustive_up_to=2 if tier == "quick" else 3)
+    seen = set()
+
+    def fresh():
+        c = CharacteristicCacheFile(pathlib.Path(path))
+        ctl = make_controller(c)
+        return c, ctl, ctl.load_pairing("ble", dict(pd))
+
+    def observe():
+        """What a restart right now would see."""
+        c, ctl, p = fresh()
+        st = p.accessories_state
+        if st is None:
+            return None
+        return dict(config_num=st.config_num, state_num=st.state_num,
+                    broadcast_key=st.broadcast_key.hex() if st.broadcast_key is not None else None,
+                    db=listed_view(dump_accessories(st.accessories)))
+
+    for hi, (kind, h) in enumerate(hists):
+        reset_dir(root, {})
+        init_key = K["k3"] if hi % 3 == 1 else None
+        stats["initial_with_key"] += init_key is not None
+        c, ctl, p = fresh()
+        exp = dict(config_num=2, state_num=5, broadcast_key=init_key.hex() if init_key else None)
+        p.restore_accessories_state(json.loads(json.dumps(BLE_DB)), 2, init_key, 5)
+        c, ctl, p = fresh()                                       # the process starts with this cache
+        db_view = listed_view(dump_accessories(p.accessories))
+        trace = [["initial", dict(exp)]]
+        problem = None
+        try:
+            for op in h:
+                if p.description is None:
+                    p._async_description_update(HomeKitAdvertisement.from_cache(pd["AccessoryAddress"], hkid, exp["config_num"], exp["state_num"]))
+                if op in ("key1", "key2"):
+                    key = K["k" + op[3]]
+                    p._derive = lambda *a, _k=key: _k
+                    p._async_request_under_lock = AsyncMock()
+                    async with p._operation_lock:
+                        await p._async_set_broadcast_encryption_key()
+                    exp["broadcast_key"] = key.hex()
+                    stats["key_set_same_config"] += 1
+                    trace.append(["set_broadcast_key (config number unchanged)", op])
+                elif op == "cfgkey":
+                    exp["config_num"] += 1
+                    key = bytes.fromhex(exp["broadcast_key"]) if exp["broadcast_key"] else None
+                    p.restore_accessories_state(json.loads(json.dumps(BLE_DB)), exp["config_num"], key, exp["state_num"])
+                    stats["key_set_changed_config"] += 1
+                    trace.append(["config change", exp["config_num"]])
+                elif op == "restart":
+                    c, ctl, p = fresh()
+                    stats["restarts"] += 1
+                    trace.append(["restart"])
+                else:
+                    what, via = op.split("_")
+                    old = exp["state_num"]
+                    new = {"up": old + 1 if old < 65534 else 1, "down": max(1, old - 3) if old > 1 else 65000, "same": old,
+                           "hi": 65534, "one": 1}[what]
+                    stats["state_up" if new > old else "state_same" if new == old else
+                          ("state_rollover" if old >= 65534 else "state_down")] += 1
+                    if via == "poll":
+                        p._update_state_num(new)                  # connection / notification path
+                    else:
+                        p._async_description_update(HomeKitAdvertisement.from_cache(
+                            pd["AccessoryAddress"], hkid, exp["config_num"], new))
+                    exp["state_num"] = new
+                    trace.append([f"state number {old} -> {new}", "notification/poll path" if via == "poll" else "advertisement"])
+                stats["steps"] += 1
+                got = observe()
+                stats["observations"] += 1
+                if got is None:
+                    problem = ("presence", "a restart now finds no cached state for the pairing")
+                    break
+                for fld in ("config_num", "state_num", "broadcast_key"):
+                    if got[fld] != exp[fld]:
+                        problem = (fld, f"{fld} is {exp[fld]!r} in the running pairing after '{trace[-1][0]}', a restart now "
+                                   f"restores {got[fld]!r}")
+                        break
+                if problem:
+                    break
+                if got["db"] != db_view:
+                    problem = ("accessories", "the accessory database restored by a restart differs")
+                    break
+                live = dict(config_num=p.config_num, state_num=p.state_num,
+                            broadcast_key=p.broadcast_key.hex() if p.broadcast_key is not None else None)
+                if live != exp:
+                    problem = ("live-state", f"the running pairing holds {live}, the operations established {exp}")
+                    break
+        except Exception as e:  # noqa
+            import traceback
+            problem = ("exception", f"{type(e).__name__}: {traceback.format_exc()[-400:]}")
+        stats["histories"] += 1
+        cov.case("blewt|" + canon(trace), len(trace) > 1,
+                 sample=dict(stream="ble-write-through", kind=kind, history=trace[:8], ok=problem is None)
+                 if stats["histories"] % 97 == 0 else None,
+                 blewt_kind=kind, blewt_len=min(len(trace), 10), blewt_result=problem[0] if problem else "ok",
+                 blewt_initial_key=init_key is not None)
+        if problem:
+            key = "ble_write_through:restart-differs:" + problem[0]
+            if key not in seen:
+                seen.add(key)
+                viols.append(violation(key, "BLE write-through: " + problem[1], problem[0] != "exception", history=trace,
+                                       established=exp))
+    for t in asyncio.all_tasks():
+        if t is not asyncio.current_task() and "disconnected_events" in repr(t):
+            t.cancel()
+    cov.extra["ble_write_through_stream"] = stats
+
+
 # ---------------------------------------------------------------- stream: cache file crash points, prefixes, corruptions
 def cache_doc(r, n_pairings=1, small=True):
     out = {}
@@ -2295,6 +2460,14 @@ async def run_async(ctx):
         t0 = time.time()
         await stream_seq(ctx, drv, cov, viols, root, rng(seed, "c20seq"))
         timings["sequence"] = round(time.time() - t0, 1)
+        t0 = time.time()
+        try:
+            await stream_blewt(ctx, drv, cov, viols, root, rng(seed, "c20blewt"))
+        except Exception:  # noqa
+            import traceback
+            viols.append(violation("harness-exception:ble_write_through", "stream ble_write_through failed: "
+                                   + traceback.format_exc()[-1200:], False, stream="ble_write_through"))
+        timings["ble_write_through"] = round(time.time() - t0, 1)
         for name, fn in (("save", lambda: stream_save(ctx, drv, cov, viols, root, rng(seed, "c20save"))),
                          ("cache", lambda: stream_cache(ctx, drv, cov, viols, root, rng(seed, "c20cache"))),
                          ("cache_history", lambda: stream_cachehist(ctx, drv, cov, viols, root, rng(seed, "c20cachehist"))),
